@@ -60,6 +60,13 @@ class SandboxBasicTracer:
     def __exit__(self, exc_type, exc_val, traceback):
         pass
 
+    def abandon(self):
+        """
+        Called by the thread that gives up on an execution that ran out of
+        time in another thread, which may go on for a while.
+        """
+        pass
+
 
 class SandboxCoverageTracer(SandboxBasicTracer):
     """
@@ -75,16 +82,38 @@ class SandboxCoverageTracer(SandboxBasicTracer):
         self.missing = set()
         self.lines = set()
         self._owner = None
+        self._lock = threading.Lock()
 
     def __enter__(self):
+        with self._lock:
+            self._start()
+
+    def __exit__(self, exc_type, exc_val, traceback):
+        with self._lock:
+            if threading.get_ident() != self._owner:
+                return
+            self._depth -= 1
+            if self._depth:
+                return
+            self._stop()
+
+    def abandon(self):
+        # The measurements of coverage nest: one that an interrupted thread
+        # ends whenever it gets to it would be ended in the middle of a later
+        # execution's. It ends here; the interrupted thread no longer owns it.
+        with self._lock:
+            if not self._depth or threading.get_ident() == self._owner:
+                return
+            self._depth = 0
+            self._stop()
+
+    def _start(self):
         # The measurement is started and stopped by one thread: another thread
         # (a student file imported under a time limit) neither nests nor ends it
-        if self._depth and threading.get_ident() != self._owner:
+        if self._depth:
+            if threading.get_ident() == self._owner:
+                self._depth += 1
             return
-        self._depth += 1
-        if self._depth > 1:
-            return
-        self._owner = threading.get_ident()
         # Force coverage to accept the code
         self.original = coverage.python.get_python_source
 
@@ -99,13 +128,11 @@ class SandboxCoverageTracer(SandboxBasicTracer):
         #coverage.python.get_python_source = _get_source_correctly
         self.coverage = coverage.Coverage()
         self.coverage.start()
+        self._owner = threading.get_ident()
+        self._depth = 1
 
-    def __exit__(self, exc_type, exc_val, traceback):
-        if threading.get_ident() != self._owner:
-            return
-        self._depth -= 1
-        if self._depth:
-            return
+    def _stop(self):
+        self._owner = None
         self.coverage.stop()
         self.coverage.save()
         # Restore the get_python_source reader
